@@ -320,6 +320,21 @@ func enumAztec(c *core.Ctx, classLen int, thorough bool) {
 			}
 		}
 	}
+	// low percentages, every length through the compact sizes (and a sweep beyond), incl. payloads that
+	// need heavy bit stuffing: the 64-word limit of compact symbols and the stuffed/unstuffed fit tests
+	for _, p := range []int{0, 10, 16} {
+		for n := 1; n <= 1900; n++ {
+			if n > 200 && (n%7 != 0 || !thorough) {
+				continue
+			}
+			for fi, fill := range azFills {
+				if fi == 3 || fi == 6 {
+					continue
+				}
+				Run(c, &core.Case{Fam: "az", S: fill(n), P: []int{p, 0}})
+			}
+		}
+	}
 	// automatic sizing over a length sweep
 	step := 17
 	if thorough {
@@ -348,9 +363,10 @@ func c03Body(c *core.Ctx) {
 
 // ---- C04 PDF417 ------------------------------------------------------------------------
 
-var pdfClass = []string{"A", "a", "1", "&", ";", "\n", ",", " ", "\x80"}
+var pdfClass = []string{"A", "a", "1", "&", ";", "\n", ",", " ", "\x80", "٣"}
 var pdfMacro = []string{"ABCDE", "abcde", "12&45", "1;;;;", "1;;;;;", "ab;cd", "\x80", "\x81\x82", "\x83\x84\x85\x86\x87\x88", "\x89\x8a\x8b\x8c\x8d\x8e\x8f",
-	"123456789012", "1234567890123", strings.Repeat("7", 44), strings.Repeat("8", 45), "Z"}
+	"123456789012", "1234567890123", strings.Repeat("7", 44), strings.Repeat("8", 45), "Z",
+	strings.Repeat("٣", 6), strings.Repeat("３", 13), "\x7f"}
 
 func enumPDF(c *core.Ctx, classLen, macroLen int, thorough bool) {
 	levels := []int{0, 2}
